@@ -101,5 +101,25 @@ func targeted() []*gen.Spec {
 		}
 	}
 	one(gen.Block{App: []string{"P"}, Members: []gen.Member{{Kind: gen.MType, Name: "AllPrims", Items: items}}})
+	// 7. regression corpus: the inputs of the five listener defects this check found (fixes/C02-1..5)
+	doc := "what it holds"
+	owner := gen.Anno{Name: "owner", Kind: 0, S: "team a"}
+	owner2 := gen.Anno{Name: "contact", Kind: 0, S: "team b"}
+	one(
+		gen.Block{App: []string{"Reg"}, Members: []gen.Member{
+			{Kind: gen.MEndpoint, Name: "Ep", Params: []gen.Field{{Name: "x", Coll: gen.CSet, Ty: nat("int")}, {Name: "y", Coll: gen.CSet, Ty: gen.TypeExpr{Kind: gen.XLocal, Local: "P&L"}}},
+				Body: []gen.Stmt{act("do it")}},
+			{Kind: gen.MEnum, Name: "Colour", Attribs: []gen.Entry{{Tag: "v2"}}, Enum: []gen.EnumItem{{Name: "red", Val: 1}}},
+			{Kind: gen.MAnno, Anno: &owner},
+			{Kind: gen.MType, Name: "P&L", Items: []gen.TableItem{{Field: &gen.Field{Name: "lines", Coll: gen.CSeq, Ty: nat("string"), Doc: &doc}},
+				{Field: &gen.Field{Name: "tags", Coll: gen.CSet, Ty: gen.TypeExpr{Kind: gen.XLocal, Local: "Colour"}, Opt: true, Doc: &doc}}}},
+			{Kind: gen.MRest, Rest: &gen.RestNode{Segs: []gen.PathSeg{{Static: "pl"}, {Var: "id", VarTy: gen.TypeExpr{Kind: gen.XLocal, Local: "P&L"}}},
+				Children: []gen.RestChild{{Method: &gen.Method{Verb: "GET", Body: []gen.Stmt{{Kind: gen.KRet, Text: "ok <: Colour"}}}}}}},
+		}},
+		gen.Block{App: []string{"Reg2"}, Members: []gen.Member{
+			{Kind: gen.MAlias, Name: "Ids", Attribs: []gen.Entry{{Tag: "v2"}}, AliasColl: gen.CSeq, AliasTy: nat("int")},
+			{Kind: gen.MAnno, Anno: &owner2},
+		}},
+	)
 	return out
 }
